@@ -533,8 +533,8 @@ type opBucket struct {
 	releaseCh chan struct{}
 
 	// control, set before use
-	freezeAtMut int                                    // park instead of executing mutation #k; 0 = never
-	observe     func(op opRec)                         // after each executed mutation (mutex held)
+	freezeAtMut int                                     // park instead of executing mutation #k; 0 = never
+	observe     func(op opRec)                          // after each executed mutation (mutex held)
 	failRead    func(op opRec) (fail bool, onRead bool) // decide on injecting a transient error into a read
 	onSyncBegin func(ord int)
 	frozenOp    opRec
@@ -699,8 +699,13 @@ func (b *opBucket) Get(ctx context.Context, name string) (io.ReadCloser, error) 
 		return nil, err
 	}
 	r, err := b.inner.Get(ctx, name)
-	if err != nil || !onRead {
+	if !onRead {
 		return r, err
+	}
+	if err != nil {
+		// the stream of a missing object cannot fail: the injected fault becomes an error of the call
+		// (reads run concurrently, so the occurrence hit may be another object than in the dry run).
+		return nil, errInjected
 	}
 	// the object exists: hand out a few bytes, then fail the stream.
 	return &failingReader{r: r, left: 7}, nil
